@@ -23,6 +23,8 @@ def ast_functions(run, keys, tier, rt_quick=8, rt_thorough=60, search_n=150, sig
         rep, rt = reps[k], rts[k]
         if rep.extraction:
             run.functions.append(rep.extraction)
+        for akey, anote in getattr(rep, 'assumed_used', []):
+            run.assume('ASSUMED contract (never verified against a body) used at a call site of %s: %s%s' % (k.split('::')[-1], akey, (' - ' + anote) if anote else ''))
         for r in rep.results:
             run.count(r.oid, r.discharged, r.backend, r.seconds, r.tag, r.verdict, sample=r.as_json())
         rt_total['evaluations'] += rt['runs']
